@@ -339,6 +339,8 @@ func findPhase(ck *Check, tier universe.Tier, name string) *Phase {
 	return nil
 }
 
+var ballast []byte
+
 func runWorker(ck *Check, tier universe.Tier, spec, out string, budget time.Duration) {
 	// spec = phase:shard/n
 	i := strings.LastIndex(spec, ":")
@@ -353,6 +355,10 @@ func runWorker(ck *Check, tier universe.Tier, spec, out string, budget time.Dura
 	runtime.GOMAXPROCS(1)
 	debug.SetPanicOnFault(true)
 	debug.SetGCPercent(400) // the per-execution state reset allocates 512 KB: collect less often
+	// a never-touched pointer-free ballast keeps the heap goal far above the working set, so that the
+	// background scavenger does not hand freed pages back to the OS after every forced collection
+	// (profiles showed madvise as 40% of a worker's time); it costs address space, not memory
+	ballast = make([]byte, 256<<20)
 	if lim := os.Getenv("VERIF_WORKER_AS"); lim != "0" && !RaceBuild {
 		var as uint64 = 12 << 30
 		if lim != "" {
@@ -375,7 +381,7 @@ func runWorker(ck *Check, tier universe.Tier, spec, out string, budget time.Dura
 		}
 	}
 	if pf := os.Getenv("VERIF_CPUPROFILE"); pf != "" {
-		if f, err := os.Create(pf); err == nil {
+		if f, err := os.Create(fmt.Sprintf("%s.%s.%d", pf, name, os.Getpid())); err == nil {
 			pprof.StartCPUProfile(f)
 			defer pprof.StopCPUProfile()
 		}
